@@ -153,10 +153,29 @@ Definition inb (o:op) (l:list op) : bool := existsb (op_eqb o) l.
 Definition conservativeb (a:op->bool) (filtered plain:list op) : bool :=
   forallb (fun o => implb (a o) (inb o plain)) filtered && forallb (fun o => implb (a o) (inb o filtered)) plain.
 
+Definition tcall_eqb (a b:tcall) : bool :=
+  match a, b with
+  | TN r, TN r' => nref_eqb r r'
+  | TO r x y d c, TO r' x' y' d' c' => nref_eqb r r' && Bool.eqb x x' && Bool.eqb y y' && list_eqb N.eqb d d' && list_eqb N.eqb c c'
+  | _, _ => false
+  end.
+(* every include_name call the comparison has to make - (name, type_, parent_names) for the schema, for each reflected table of an
+   accepted schema, for each reflected column / index / unique constraint / foreign key (named or not) of a table that is compared -
+   is observed *)
+Definition is_name_call (c:tcall) : bool := match c with TN _ => true | TO _ _ _ _ _ => false end.
+Definition name_calls_okb (expected observed:list tcall) : bool :=
+  forallb (fun c => implb (is_name_call c) (existsb (tcall_eqb c) observed)) expected.
+
 Definition C20_holds (i:c20_in) (out:c20_out) : Prop :=
   let '(A, B, f) := i in
   object_filter_ok (io_of f) (o_filtered out) /\ name_filter_ok (iname_of f) (o_filtered out) /\
-  conservativeb (acc (io_of f) (iname_of f) (reflect_sqlite A) B) (o_filtered out) (o_plain out) = true.
+  conservativeb (acc (io_of f) (iname_of f) (reflect_sqlite A) B) (o_filtered out) (o_plain out) = true /\
+  (* the name filter is consulted for every reflected object ... *)
+  name_calls_okb (calls_f (io_of f) (iname_of f) (fl_attached f) (reflect_sqlite A) B) (o_calls out) = true /\
+  (* ... and what it rejects is treated as absent, what include_object rejects is left alone: the operations are those of the
+     specification diff_f.  (C20_name_absent: without an object filter diff_f is the plain comparison of the database from which the
+     rejected objects have been removed; C20_object_filter / C20_conservative say what include_object does to it.) *)
+  ops_equiv (diff_f (io_of f) (iname_of f) g20 (reflect_sqlite A) B) (o_filtered out) = true.
 
 (* decider: "an include_object call about r said yes", searched among the calls that can really be made: the object is the
    reflected or the metadata object of that name, compare_to is absent or the counterpart *)
@@ -178,14 +197,9 @@ Definition check_C20 (i:c20_in) (out:c20_out) : bool :=
   forallb (fun o => obj_acceptedb f (reflect_sqlite A) B (op_nref o) && obj_acceptedb f (reflect_sqlite A) B (NTable (op_table o))) (o_filtered out)
   && forallb (fun o => implb (drops_or_alters o)
                          (iname_of f (schema_ref (op_table o)) && iname_of f (NTable (op_table o)) && iname_of f (op_nref o))) (o_filtered out)
-  && conservativeb (acc (io_of f) (iname_of f) (reflect_sqlite A) B) (o_filtered out) (o_plain out).
-
-Definition tcall_eqb (a b:tcall) : bool :=
-  match a, b with
-  | TN r, TN r' => nref_eqb r r'
-  | TO r x y d c, TO r' x' y' d' c' => nref_eqb r r' && Bool.eqb x x' && Bool.eqb y y' && list_eqb N.eqb d d' && list_eqb N.eqb c c'
-  | _, _ => false
-  end.
+  && conservativeb (acc (io_of f) (iname_of f) (reflect_sqlite A) B) (o_filtered out) (o_plain out)
+  && name_calls_okb (calls_f (io_of f) (iname_of f) (fl_attached f) (reflect_sqlite A) B) (o_calls out)
+  && ops_equiv (diff_f (io_of f) (iname_of f) g20 (reflect_sqlite A) B) (o_filtered out).
 Definition corr_C20 (i:c20_in) (out:c20_out) : bool :=
   let m := model_C20 i in
   ops_equiv (o_filtered m) (o_filtered out) && ops_equiv (o_plain m) (o_plain out) && mset_eqb tcall_eqb (o_calls m) (o_calls out).
